@@ -482,6 +482,249 @@ def fixed_point_deviations(sp):
     return devs
 
 
+# ---- the same family through the model: restricted types are `rnum`, the others `reg` leaves --------------------
+_REG_OBJS: dict = {}
+
+
+def reg_kind_index(x):
+    """index of the registered (non-restricted) type of the family that `x` is an instance of, else None"""
+    for k, (_n, T, _t, _o) in enumerate(registered_family_types()):
+        if not _is_restricted(T) and type(x) is not bool and isinstance(x, T) and type(x).__module__ != "builtins" or (T in (bytes, bytearray, range, complex) and type(x) is T):
+            return k
+    return None
+
+
+def _is_restricted(T):
+    return hasattr(T, "_type") and (hasattr(T, "_restrictions") or hasattr(T, "_regex"))
+
+
+def enc2(x):
+    """wire encoding that also knows the registered values ({"o": [k, repr]}); restricted instances are plain numbers/strings"""
+    if x is None or isinstance(x, bool):
+        return x
+    k = reg_kind_index(x)
+    if k is not None:
+        _REG_OBJS[(k, repr(x))] = x
+        return {"o": [k, repr(x)]}
+    if isinstance(x, int):
+        return int(x)
+    if isinstance(x, float):
+        return {"f": repr(float(x))}
+    if isinstance(x, str):
+        return str(x)
+    if isinstance(x, list):
+        return [enc2(y) for y in x]
+    if isinstance(x, tuple):
+        return {"t": [enc2(y) for y in x]}
+    raise Unencodable(type(x).__name__)
+
+
+def to_py2(j):
+    if isinstance(j, dict) and "o" in j:
+        return _REG_OBJS[(j["o"][0], j["o"][1])]
+    if isinstance(j, list):
+        return [to_py2(x) for x in j]
+    if isinstance(j, dict) and "t" in j:
+        return tuple(to_py2(x) for x in j["t"])
+    return c02.to_py(j)
+
+
+def nodes(j):
+    yield j
+    if isinstance(j, list):
+        for x in j:
+            yield from nodes(x)
+    elif isinstance(j, dict) and ("t" in j or "s" in j):
+        for x in j.get("t", j.get("s")):
+            yield from nodes(x)
+    elif isinstance(j, dict) and "d" in j:
+        for _, v in j["d"]:
+            yield from nodes(v)
+
+
+def leaf_desc(k):
+    T = registered_family_types()[k][1]
+    if _is_restricted(T):
+        return {"rn": [{int: "int", float: "float", str: "str"}[T._type], k]}
+    return {"reg": k}
+
+
+def reg_tables(k, *values):
+    """oracle tables of the registered / restricted leaf `k` for every node of `values` and of what the loader makes of
+    their strings: what the real class / deserializer / serializer answers"""
+    from jsonargparse.typing import get_registered_type
+
+    T = registered_family_types()[k][1]
+    base = c02.build_tables(*values)
+    seen, todo = {}, []
+    for v in values:
+        todo.extend(nodes(v))
+    for _s, r in base["yaml"] + base["any"]:
+        if r is not c02.EXC:
+            todo.extend(nodes(r))
+    for u in todo:
+        seen[jdump(u)] = u
+    out = {"numstr": [], "rnumok": [], "baseof": [], "regdeser": [], "regser": []}
+    if _is_restricted(T):
+        b = T._type
+        tag = {int: "int", float: "float", str: "str"}[b]
+        cands = {}
+        for u in seen.values():
+            if isinstance(u, str) and b is not str:
+                try:
+                    w = enc2(b(u))
+                except (ValueError, OverflowError):
+                    w = None
+                out["numstr"].append([tag, u, w])
+                if w is not None:
+                    cands[jdump(w)] = w
+            if isinstance(u, bool) or u is None or isinstance(u, (list,)) or (isinstance(u, dict) and "f" not in u):
+                continue
+            try:
+                pu = c02.to_py(u)
+                if b is int and isinstance(pu, float) and not pu.is_integer():
+                    continue
+                w = enc2(b(pu)) if not isinstance(pu, str) or b is str else None
+            except (ValueError, OverflowError, TypeError):
+                w = None
+            if w is not None:
+                cands[jdump(w)] = w
+        for w in cands.values():
+            try:
+                T(c02.to_py(w))
+                ok = True
+            except (ValueError, TypeError):
+                ok = False
+            out["rnumok"].append([str(k), w, ok])
+    else:
+        rt = get_registered_type(T)
+        objs = {}
+        for u in seen.values():
+            if isinstance(u, dict) and "o" in u:
+                objs[jdump(u)] = u
+                if u["o"][0] == k:
+                    continue
+            try:
+                w = enc2(rt.deserializer(to_py2(u)))
+                if not (isinstance(w, dict) and "o" in w):
+                    w = None
+            except ValueError:
+                w = None
+            except Exception:  # noqa: BLE001 - not wrapped by RegisteredType.deserializer: outside the model
+                raise Unencodable("deserializer raised an unwrapped exception")
+            out["regdeser"].append([str(k), u, w])
+            if w is not None:
+                objs[jdump(w)] = w
+        for u in objs.values():
+            if u["o"][0] != k:
+                continue
+            try:
+                out["regser"].append([str(k), u, c02.enc(rt.serializer(to_py2(u)))])
+            except Unencodable:
+                raise
+            except Exception:  # noqa: BLE001
+                out["regser"].append([str(k), u, None])
+    base.update(out)
+    return base
+
+
+def registered_correspondence(ctx: Ctx):
+    """first pass, second pass and serialiser of the real parser versus the model (`rnum` / `reg` leaves) on the family:
+    leaf / Optional / List positions, text and object inputs"""
+    import json
+    from typing import List, Optional
+
+    from jsonargparse import ArgumentError, ArgumentParser
+    from jsonargparse._common import parser_context
+
+    items, metas = [], []
+    for k, (name, T, texts, objs) in enumerate(registered_family_types()):
+        ld = leaf_desc(k)
+        bad_texts = ["abc", "-1", "0", "1.5", "true", "null", "[1]", "", "12:00", "1e3", " 2 "]
+        for position, desc, PT in (("leaf", ld, T), ("optional", {"u": [ld, "none"]}, Optional[T]), ("list", {"l": ld}, List[T])):
+            p = ArgumentParser(exit_on_error=False, default_env=False)
+            p.add_argument("--k", type=PT)
+            action = next(a for a in p._actions if a.dest == "k")
+            cases = [("arg", t) for t in texts + bad_texts] + [("obj", o) for o in objs]
+            for ch, x in cases:
+                try:
+                    if ch == "arg":
+                        text = x
+                        if position == "list":
+                            try:
+                                item = json.loads(x)
+                                if isinstance(item, (dict, list)) or item is None or isinstance(item, bool):
+                                    item = x
+                            except ValueError:
+                                item = x
+                            text = json.dumps([item, item])
+                        wire_in = text
+                    else:
+                        given = [copy.deepcopy(x)] if position == "list" else copy.deepcopy(x)
+                        wire_in = enc2(given)
+                    try:
+                        cfg = p.parse_args(["--k=" + text]) if ch == "arg" else p.parse_object({"k": given})
+                        first = enc2(cfg.k)
+                        real = {"ok": first}
+                    except ArgumentError:
+                        cfg, first, real = None, None, {"err": "reject"}
+                    except Unencodable:
+                        raise
+                    except Exception:  # noqa: BLE001 - e.g. decimal.InvalidOperation is not wrapped (C03's subject)
+                        raise Unencodable("unwrapped deserializer exception")
+                    want = ["parseArg" if ch == "arg" else "parseObj"]
+                    tabs = reg_tables(k, wire_in) if first is None else reg_tables(k, wire_in, first)
+                    items.append({"t": desc, "v": wire_in, "o": tabs, "want": want})
+                    metas.append(("first", name, position, ch, wire_in, real))
+                    ctx.count()
+                    if first is not None:
+                        try:
+                            again = {"ok": enc2(p.parse_object(cfg.clone()).k)}
+                        except ArgumentError:
+                            again = {"err": "reject"}
+                        try:
+                            with parser_context(parent_parser=p, load_value_mode=p.parser_mode):
+                                sv = action.serialize(copy.deepcopy(cfg.k))
+                            sreal = {"ok": c02.canon(c02.enc(sv))}
+                        except Unencodable:
+                            raise
+                        except Exception:  # noqa: BLE001
+                            sreal = {"err": "reject"}
+                        items.append({"t": desc, "v": first, "o": reg_tables(k, first), "want": ["parseObj", "ser"]})
+                        metas.append(("second", name, position, ch, first, (again, sreal)))
+                        ctx.count(2)
+                except Unencodable:
+                    ctx.hist("registered_model", "outside-wire-grammar")
+    res = c02.run_driver(ctx, items)
+    bad = []
+    for r, m in zip(res or [], metas):
+        if "bad-input" in r or "miss" in r:
+            raise MachineryError("driver could not evaluate registered case %s: %s" % (jdump(m[:5])[:300], jdump(r)[:200]))
+        if m[0] == "first":
+            mine = c02.model_obs(r, m[3])
+            if jdump(mine) != jdump(c02.canon(m[5])):
+                bad.append({"what": "first pass", "type": m[1], "position": m[2], "channel": m[3], "input": m[4], "real": m[5], "model": mine})
+        else:
+            again, sreal = m[5]
+            mine = c02.model_obs(r, "obj")
+            if jdump(mine) != jdump(c02.canon(again)):
+                bad.append({"what": "second pass", "type": m[1], "position": m[2], "value": m[4], "real": again, "model": mine})
+            ms = {"ok": c02.canon(r["ser"]["ok"])} if "ok" in r["ser"] else {"err": "reject"}
+            if jdump(ms) != jdump(sreal):
+                bad.append({"what": "serialise", "type": m[1], "position": m[2], "value": m[4], "real": sreal, "model": ms})
+        ctx.hist("registered_model", m[0])
+    bad.sort(key=lambda b: len(jdump(b)))
+    for b in bad[:3]:
+        ctx.tie_break("correspondence E3 (rnum / reg leaves of the adapter model vs jsonargparse registered types) disagrees", jdump(b)[:1800])
+    ctx.extra["registered_model_cases"] = len(items)
+    ctx.extra["registered_model_disagreements"] = len(bad)
+    import os
+    if os.environ.get("C10_DEBUG"):
+        with open(os.environ["C10_DEBUG"] + ".reg", "w") as f:
+            for b in bad:
+                f.write(jdump(b) + "\n")
+
+
 def registered_family(ctx: Ctx):
     n = 0
     for name, _T, texts, objs in registered_family_types():
@@ -809,6 +1052,7 @@ def run(ctx: Ctx):
 
     default_family(ctx)
     registered_family(ctx)
+    registered_correspondence(ctx)
     subclass_family(ctx)
 
     # ---- findings -------------------------------------------------------------
